@@ -242,10 +242,15 @@ def form_case(ctx, els, directed=None):
     # the oracle's classification: the PINNED lexicon and sets (= default_is_dynamic of the source as long as
     # lexer_rules_pinned / dynamic_sets_pinned / classification_is_pinned check; independent of the source afterwards)
     with_default = [q for q, _, _ in walked if q["default"]]
-    pinned = ctx.driver.call("lexer.pinned", items=[[q["default"], q["type"]] for q in with_default]) if with_default else []
-    dyn = {q["name"]: bool(b) for q, b in zip(with_default, pinned)}
-    if mdyn is not None and any(mdyn.get(n) != b for n, b in dyn.items()):
-        ctx.mismatch("classification of a default: current tables vs pinned lexicon", case, mdyn, dyn)
+    pinned = ctx.driver.call("lexer.pinned", items=[[q["default"], q["type"]] for q in with_default]
+                             + [[q["default"], F.data_type(q["type"])] for q in with_default]) if with_default else []
+    dyn_by_name = {q["name"]: bool(b) for q, b in zip(with_default, pinned)}
+    if mdyn is not None and any(mdyn.get(n) != b for n, b in dyn_by_name.items()):
+        ctx.mismatch("classification of a default: current tables vs pinned lexicon", case, mdyn, dyn_by_name)
+    # the hyphen exception is a rule about DATA types; a type spelled otherwise (`datetime`, `q date`, `gps`, …) must be
+    # classified like its data type (finding F47 where the code, which tests the type *name*, disagrees)
+    dyn = {q["name"]: bool(b) for q, b in zip(with_default, pinned[len(with_default):])}
+    alias_hyphen = {n for n in dyn if dyn[n] != dyn_by_name[n]}
     ctx.count("value:relative-reference", sum(1 for x in obs["sets"] + obs["trigs"] if x[4] and " ../" in x[4])
               + sum(1 for cs in obs["binds"].values() for c in cs if c and " ../" in c))
     ctx.count("value:absolute-reference", sum(1 for x in obs["sets"] + obs["trigs"] if x[4] and " /data/" in x[4]))
@@ -262,7 +267,10 @@ def form_case(ctx, els, directed=None):
         cls = "none" if not q["default"] else ("dynamic" if is_dyn else "static")
         ctx.count(f"default:{q.get('dclass', '?')}:{cls}:{'repeat' if reps else 'flat'}")
         exp_text = q["default"] if cls == "static" else ""
-        site = {"q": q["name"], "type": q["type"], "default": q["default"], "path": p, "class": cls}
+        site = {"q": q["name"], "type": q["type"], "default": q["default"], "path": p, "class": cls,
+                "alias_hyphen": q["name"] in alias_hyphen, "data_type": F.data_type(q["type"])}
+        if q["name"] in alias_hyphen:
+            ctx.count("default:alias-of-hyphen-type")
         if inst != [exp_text]:
             ctx.fail(Failure("instance-text", f"{cls} default {q['default']!r} ({q['type']}): instance node text {inst!r}, expected [{exp_text!r}]", case, extra=site))
         if any(t != exp_text for t in tmpl) or bool(tmpl) != bool(reps):
@@ -336,6 +344,12 @@ def directed_forms():
                                                    {"k": "grp", "name": "g", "kids": [q("d", default="now()"), q("e", "date", default="2020-01-01"),
                                                                                       {"k": "rep", "name": "r2", "kids": [q("f", "integer", default="1 + 1"), q("f2", default="${a}")]}]}]},
                 q("z", default="uuid()")])
+    # F47 (deterministic): other spellings of the hyphen data types with a lone `-` token in the default
+    out.append([q("a", "datetime", default="2020-01-01 - 1"), q("b", "gps", default="- 5"),
+                {"k": "rep", "name": "r", "kids": [q("c", "q date", default="1 - 2"), q("d", "location", default="12.3 - 45.6")]}])
+    # … and what is NOT affected: well-formed literals are single tokens under every spelling
+    out.append([q("a", "datetime", default="2020-01-01T00:00:00"), q("b", "date time", default="2020-01-01T10:20:30+05:30"),
+                q("c", "q date", default="2020-01-01"), q("d", "gps", default="12.3 -45.6 0 0"), q("e", "dateTime", default="2020-01-01 - 1")])
     # prefix-related names between a repeat and elements outside it (string-prefix vs path-segment confusion)
     for rep_name, outside in [("r", ["r_x", "rs", "r2"]), ("abc", ["abcd", "abc.e", "abc-f"])]:
         els = [{"k": "rep", "name": rep_name, "kids": [q("in_" + rep_name, default="now()")]}]
@@ -391,6 +405,16 @@ def explore(ctx, factor, bs):
     }
 
 
+def f47(failure):
+    """F47: utils.default_is_dynamic applies the hyphen exception by type NAME ({"date", "dateTime", "geopoint",
+    "geotrace", "geoshape"}); a question whose type is another spelling of the same data type (`datetime`, `date time`,
+    `q date`, `gps`, `location`, `q geopoint`, …) and whose default holds a lone `-` token before any other dynamic token is
+    classified dynamic (empty node + setvalue) where the data type's rule says static."""
+    e = failure.extra
+    return (failure.kind in ("instance-text", "template-text", "unexpected-setvalue") and e.get("alias_hyphen") is True
+            and e.get("class") == "static" and e.get("type") != e.get("data_type"))
+
+
 def replay(ctx, payload, bs):
     before = len(ctx.failures), len(ctx.mismatches)
     case = payload.get("case") or {}
@@ -411,4 +435,4 @@ def replay(ctx, payload, bs):
 
 
 def main(argv):
-    return vcore.run_check(PROP, explore, RULE, matchers={}, replay=replay, argv=argv)
+    return vcore.run_check(PROP, explore, RULE, matchers={"F47-hyphen-rule-type-alias": f47}, replay=replay, argv=argv)
